@@ -124,9 +124,9 @@ def boundary_case(rng, shape=None, kind=None):
     for d, e in enumerate(shape):
         arrs[d][0] = e - 1
     c.update({"exts": list(shape), "arrs": arrs, "commons": [rng.choice([0, e - 1]) for e in shape], "boundary": True})
-    c["xdtype"] = rng.choice(["to_array", "uint8" if max(shape) <= 256 else "uint16", "int64", "uint16", "int32", "uint32", "uint64"])
-    if c["xdtype"] == "uint8" and max(shape) > 256:
-        c["xdtype"] = "uint16"
+    top = max(max(a) for a in arrs)
+    fits = [dt for dt in INT_DTYPES if top <= numpy.iinfo(dt).max]      # the narrowest dtypes that can hold the data, and wider ones
+    c["xdtype"] = rng.choice(["to_array", fits[0], fits[0], "int64", "uint64"] + fits)
     c["shape_mode"] = rng.choice(["explicit", "inferred"])
     if c["kind"] == "count":
         c["N_arg"] = None
